@@ -5,7 +5,8 @@
 (* seeded random numbers are decoded into operations against the CURRENT model tree, so     *)
 (* never into one that would block on a fifo) operation sequences over the small universe    *)
 (* names {a,b,c}, prior states of the target "a" in {absent, short file, long file, empty    *)
-(* dir, non-empty dir, link to dir, link to file, dangling link, link loop, link chain},     *)
+(* dir, non-empty dir, link to dir, link to file, dangling link, link loop, link chain,      *)
+(* unix socket, dir holding socket + block device}, payloads {2 bytes, 1 byte, EMPTY},       *)
 (* path spellings                                                                            *)
 (* {a/b, a//b, a/b/, ./a/b, /a/b}.  The model state (tree) is advanced with FsTree!Model so  *)
 (* that later operations of a sequence are chosen against the tree the earlier ones leave.   *)
@@ -36,7 +37,10 @@ Inits == <<
         <<"a", "c">>, Link(<<"..", "c">>)), <<"a", "d">>, Dir), <<"a", "d", "l">>, Link(<<"..", "..", "b", "b">>)),
     \* a symbolic-link loop a -> b/l -> ../a (ELOOP), and a two-link chain a -> b/l -> ../b/b (a directory)
     Put(WithA(Link(<<"b", "l">>)), <<"b", "l">>, Link(<<"..", "a">>)),
-    Put(WithA(Link(<<"b", "l">>)), <<"b", "l">>, Link(<<"..", "b", "b">>))
+    Put(WithA(Link(<<"b", "l">>)), <<"b", "l">>, Link(<<"..", "b", "b">>)),
+    \* the target is a unix socket; a directory holding a socket, a block-device node and a file
+    WithA(Sock),
+    Put(Put(Put(WithA(Dir), <<"a", "a">>, Sock), <<"a", "b">>, Blk), <<"a", "c">>, File(S))
 >>
 
 TreeList(t) == SetToSeq({[p |-> q, n |-> t[q]] : q \in DOMAIN t})
@@ -72,9 +76,10 @@ Blocks(t, o) ==
     \/ o.op \in Writes \cup {"oopen", "read", "copy", "copy_lim", "fcopy", "fcopy_x", "remove_dir_all", "read_dir"} /\ OpensFifo(t, o.p)
     \/ o.op \in {"copy", "copy_lim", "fcopy"} /\ OpensFifo(t, o.q)
 Ops(t) == {o \in {Op1(op, p) : op \in Unary, p \in Targets}
-                 \cup {OpC(op, p, c) : op \in Writes, p \in Targets, c \in {S, M}}
+                 \cup {OpC(op, p, c) : op \in Writes, p \in Targets, c \in {S, M, Empty}}
                  \cup {Op2(op, p, q) : op \in {"copy", "rename"}, p \in Sources, q \in Targets}
-                 \cup (IF OpSet = "all" THEN {OpF(p, S, f) : p \in OpenTargets, f \in AllFlags} ELSE {})
+                 \cup (IF OpSet = "all" THEN {OpF(p, S, f) : p \in OpenTargets, f \in AllFlags}
+                                         \cup {OpF(p, Empty, f) : p \in {<<"a">>, <<"b", "a">>}, f \in AllFlags} ELSE {})
                  \cup (IF OpSet = "all" THEN {[op |-> "copy_lim", p |-> p, q |-> q, c |-> [n |-> lim, b |-> <<>>, h |-> ""], f |-> <<>>] :
                                                  p \in {<<"b", "a">>, <<"c">>, <<"a">>}, q \in {<<"a">>, <<"b", "a">>, <<"a", "b">>, <<"b", "x">>},
                                                  lim \in {1, 3}} ELSE {})
@@ -96,8 +101,8 @@ Decode(t, x) ==
     LET k == At(KindSeq, x[1])
         o == IF k \in Unary THEN Op1(k, At(TargetSeq, x[2]))
              ELSE IF k \in {"copy", "rename"} THEN Op2(k, At(SourceSeq, x[2]), At(TargetSeq, x[3]))
-             ELSE IF k = "oopen" THEN OpF(At(TargetSeq, x[2]), At(<<S, M>>, x[4]), At(FlagSeq, x[3]))
-             ELSE OpC(k, At(TargetSeq, x[2]), At(<<S, M>>, x[4]))
+             ELSE IF k = "oopen" THEN OpF(At(TargetSeq, x[2]), At(<<S, M, Empty>>, x[4]), At(FlagSeq, x[3]))
+             ELSE OpC(k, At(TargetSeq, x[2]), At(<<S, M, Empty>>, x[4]))
     IN IF Blocks(t, o) \/ (o.op = "copy" /\ CopySameNode(t, o.p, o.q)) THEN Op1("exists", o.p) ELSE o
 
 Init == /\ IF Mode = "picks" THEN cid \in 1..Len(Picks) /\ iid = Picks[cid].init
